@@ -38,6 +38,9 @@ func c16Tree(cfg int) Tree {
 		"fail2.tw": "@use(\"lay\")@insert(\"body\"){{ 1 / 0 }}@end",
 		"plain.tw": "plain {{ name.upper() }} {{ items.len() }}",
 		"err.tw":   "custom error page",
+		// pages that assign top-level variables (rendered without data: nothing may survive the call)
+		"assign.tw":  "{{ x = 1 }}{{ x }}{{ n = nil }}",
+		"assign2.tw": "{{ x = \"s\" }}{{ x }}|{{ y = [1] }}{{ y.len() }}",
 		// a page that walks through as much of the interpreter as possible (every built-in, loops, dump, objects …)
 		"sink.tw": `{{-- sink --}}\{{ esc }} \@if(x)
 @for(i = 0; i < 3; i++){{ i }}@continueIf(i == 1)@for(j = 0; j < 2; j = j + 1)[{{ i * 2 + j }}]@end@end
@@ -79,7 +82,30 @@ func c16Ops() []c16Op {
 			}})
 		}
 	}
+	for _, name := range []string{"assign", "assign2"} {
+		for d := 0; d < 2; d++ {
+			name, d := name, d
+			ops = append(ops, c16Op{fmt.Sprintf("String(%s,%s)", name, []string{"nil", "empty"}[d]), func(tpl *textwire.Template, t Tree) (string, bool) {
+				var data map[string]any
+				if d == 1 {
+					data = map[string]any{}
+				}
+				o := render(tpl, name, data)
+				return outcomeKey(o), len(data) != 0
+			}})
+		}
+	}
 	ops = append(ops,
+		c16Op{"EvaluateString(assign,nil)", func(tpl *textwire.Template, t Tree) (string, bool) {
+			o := guard(func() Outcome {
+				out, err := textwire.EvaluateString("{{ x = 2.5 }}{{ x }}{{ q = true }}", nil)
+				if err != nil {
+					return parseErr(err)
+				}
+				return Outcome{Kind: KOut, Out: out}
+			})
+			return outcomeKey(o), false
+		}},
 		c16Op{"EvaluateString(ok)", func(tpl *textwire.Template, t Tree) (string, bool) {
 			data := c16Data(0)
 			o := guard(func() Outcome {
@@ -168,9 +194,15 @@ func (w *c16World) replay(hist []int) (results []string, dataChanged []bool, key
 		results = append(results, r)
 		dataChanged = append(dataChanged, dc)
 	}
-	key, _ = stateVector(tpl)
-	_, restricted = stateVector(tpl, ".usesTemplates")
-	return results, dataChanged, key, restricted, ""
+	// one hashing pass: the full key, and the restricted vector without the mode flag
+	k, parts := stateVector(tpl)
+	restricted = map[string]uint64{}
+	for n, h := range parts {
+		if !strings.HasSuffix(n, ".usesTemplates") {
+			restricted[n] = h
+		}
+	}
+	return results, dataChanged, k, restricted, ""
 }
 
 // c16Verdict checks the last operation of a history.
@@ -345,7 +377,7 @@ func init() {
 		Rule:  "explicit-state breadth-first search over the real entry points: from the state after NewTemplate on a fixed tree (layout, component in a loop with slots, failing pages, custom error page), every operation of {String, Response} x {ok page, two failing pages, unknown name, layout name, plain page} x 2 data maps, EvaluateString ok/failing, EvaluateFile ok/missing is applied to every reachable state; a state is the deep hash of every package-level variable of the module, the loaded program table (state vector extracted by the instrumenter); states are deduplicated and the search runs to a fixpoint; repeated for {debug on/off} x {no / valid custom error page}. On every transition the operation's result (output or message+line+path, and the Response body) must equal the result of the same operation issued first in a fresh state, and the restricted vector (ASTs, configuration, registry) and the caller's data must be unchanged. Additionally every history up to a small length is run without deduplication",
 		Bounds: func(tier string) map[string]any {
 			if tier == "thorough" {
-				return map[string]any{"operations": len(c16Ops()), "bfs_depth_bound": 8, "histories_without_dedup_len": 4, "load_configurations": 4}
+				return map[string]any{"operations": len(c16Ops()), "bfs_depth_bound": 8, "histories_without_dedup_len": "4 (cut by the internal deadline: exhaustive=false names what was completed)", "load_configurations": 4}
 			}
 			return map[string]any{"operations": len(c16Ops()), "bfs_depth_bound": 4, "histories_without_dedup_len": 3, "load_configurations": 4}
 		},
